@@ -272,6 +272,43 @@ def rule_wrap_breaks(prog, rep, tier):
 
 
 # ---------------------------------------------------------------------------- WRAP-CONT
+# ---------------------------------------------------------------------------- WRAP-WIDTH
+def rule_wrap_width(prog, rep, tier, writer="emitter_utils.to_docstring"):
+    """WRAP-WIDTH (C18, C01, C03): on the docstring writer's path an entry is wrapped more than once (the per-entry writer wraps the
+    description, the docstring writer wraps the finished entry again).  textwrap keeps the white-space inside a line: the second
+    pass leaves no trace of the first only because it breaks at the same words, i.e. because every wrapper applied on that path
+    wraps to one and the same width.  Decided: all wrapper applications in the functions reachable from the docstring writer
+    bind `width` to the same expression (the shared configuration's, or the same override everywhere)."""
+    w = prog.fn(writer)
+    region = {id(f) for f in prog.reachable([w])}
+    sites = [(node, fe, alts) for node, fe, alts, _t in wrap_sites(prog) if enclosing_fn(node) is not None and id(enclosing_fn(node)) in region]
+    fns = {enclosing_fn(node).qualname.split(".<")[0] for node, _fe, _a in sites}
+    if len(sites) < 2:
+        raise AnalysisError("WRAP-WIDTH: fewer than two wrapper applications found on the path of %s (the per-entry writer and the docstring writer are expected)" % writer)
+    widths = {}
+    for node, fe, alts in sites:
+        for name, kw, origin in alts:
+            v = kw.get("width")
+            # a name is read through to what it is bound to, so `width=line_length` and the configured `line_length` are one width
+            key = "textwrap's default (70)" if v is None else src(v, 60)
+            widths.setdefault(key, []).append((node, origin))
+    if len(widths) == 1:
+        rep.holds("WRAP-WIDTH", "%s: %d wrapper application(s) in %d function(s)" % (writer, len(sites), len(fns)), loc(prog, w.node),
+                  "all wrap to %s" % next(iter(widths)))
+        return
+    common = max(widths, key=lambda k: len(widths[k]))
+    for key, where in sorted(widths.items()):
+        if key == common:
+            continue
+        node = where[0][0]
+        fn = enclosing_fn(node)
+        rep.violation(Finding(
+            "WRAP-WIDTH", prog.owner_name(fn), "second-width",
+            "%s wraps to %s while the other wrapper application(s) on the docstring writer's path wrap to %s: an entry passes through more than one of them, and "
+            "textwrap keeps white-space inside a line - where the second pass breaks at other words than the first, the first pass's line break and indent stay "
+            "in the middle of a line as a run of blanks, which the reader takes for prose" % (src(node, 50), key, common), loc(prog, node)))
+
+
 def _is_indenter(prog, fe, at):
     """textwrap.indent, or a package function whose region applies it (indent_all_but_first, a local wrap-and-indent helper)"""
     if isinstance(fe, ast.Call) and isinstance(fe.func, (ast.Name, ast.Attribute)) and prog.ext_name(fe.func, fe) == "functools.partial" and fe.args:
